@@ -232,7 +232,8 @@ def execute(rec):
 def scenario(sid, rec):
     return {'id': sid, 'recipe': rec,
             'tags': {'kind': rec['kind'], 'family': rec['family'], 'driver': rec['driver'], 'elem': rec.get('elem') or '',
-                     'dom': rec['variants'][0]['region']['dom']},
+                     'dom': rec['variants'][0]['region']['dom'],
+                     'order': rec['order'] if rec.get('order') is not None else 'default'},
             'events': execute(rec)}
 
 
@@ -470,12 +471,16 @@ def gen_integrate(tier, rng):
     for (n, split) in ((1, 6), (1, 5), (2, 6)):
         p, t = U.tet_cubes(n, split)
         add('tet', 'U3t', p, t, regions_cells(t.shape[1], rng, 2), range(0, 4), 'cells')
-        add('tet', 'U3t-box', p, t, [{'dom': 'cells', 'mode': 'all'}], (4, 5), 'box', box=([0, 0, 0], [n, 1, 1]))
+        add('tet', 'U3t-box', p, t, [{'dom': 'cells', 'mode': 'all'}], (4,), 'box', box=([0, 0, 0], [n, 1, 1]))
+        # orders 5..9 on tetrahedra: the tables are one degree short (finding 17 of C08); kept as a separate family
+        add('tet', 'tet-high-order', p, t, [{'dom': 'cells', 'mode': 'all'}], (5, 6), 'box', box=([0, 0, 0], [n, 1, 1]),
+            refine=False)
     for j in range((6 if big else 1)):
         L = [int(rng.integers(1, 4)) for _ in range(3)]
         p, t = box_delaunay(3, L, int(rng.integers(1, 5)), rng)
         add('tet', 'delaunay-box', p, t, [{'dom': 'cells', 'mode': 'all'}], (2, 4), 'box', box=([0, 0, 0], L))
         add('tet', 'delaunay-box', p, t, regions_cells(t.shape[1], rng, 1)[1:], (1, 3), 'cells')
+        add('tet', 'tet-high-order', p, t, [{'dom': 'cells', 'mode': 'all'}], (5, 6), 'box', box=([0, 0, 0], L), refine=False)
     # ---- hexahedra: boxes and parallelepipeds
     for dims in ((1, 1, 1), (2, 1, 1), (2, 2, 1)):
         p, t = U.hex_grid(*dims)
@@ -533,6 +538,10 @@ def gen_integrate(tier, rng):
     addf('tet', 'U3t-facets', p, t, (0, 1, 2, 3))
     p, t = U.tet_cubes(2, 5)
     addf('tet', 'U3t-facets', p, t, (0, 2), nsub=1)
+    # cube stretched by (1, 3, 4) / (3, 4, 1): oblique interior and boundary facets with integer 2*area
+    for sc in ((1, 3, 4), (3, 4, 1), (4, 1, 3)):
+        p, t = U.tet_cubes(1, 6)
+        addf('tet', 'U3t-345-facets', p * np.array(sc)[:, None], t, (0, 1, 2), nsub=2, refine=False)
     p, t = U.hex_grid(2, 1, 1)
     addf('hex', 'U3h-facets', p, t, (0, 1, 2, 3))
     out = recs + frecs
